@@ -106,12 +106,11 @@ theorem tinv_doFill {cfg : Cfg} {s : St} (h : TInv cfg s) (k : Nat) : TInv cfg (
   | _ => simpa [hp] using h
 
 theorem tinv_doDeliver {cfg : Cfg} {s : St} (h : TInv cfg s) : TInv cfg (doDeliver s) := by
-  unfold doDeliver
   cases hp : s.ph with
   | flight pe be msg =>
-    exact h.congr (foldl_setSentAt _ _ _).1 (foldl_setSentAt _ _ _).2 (foldl_setSentAt _ _ _).1
-      (foldl_setSentAt _ _ _).2 (by simp [effPeer, hp])
-  | _ => simpa [hp] using h
+    obtain ⟨a1, a2, a3, a4, _, _, a7, _, _, _⟩ := doDeliver_spec (cfg := cfg) hp
+    exact h.congr a1 a2 a3 a4 a7
+  | _ => unfold doDeliver; simpa [hp] using h
 
 theorem tinv_response {cfg : Cfg} {s : St} (h : TInv cfg s) (cs : List Nat) : TInv cfg (response s cs) := by
   unfold response
@@ -139,8 +138,8 @@ theorem blkC_congr {m m' : Msg} {c : Nat} (h : m.get c = m'.get c) : m.blkC c = 
 theorem blk_of_get {w : WL} {c : Nat} {e : Ent} (hg : w.get c = some e) (hb : w.blk c = true) : e.ty = .block := by
   unfold WL.blk at hb; rw [hg] at hb; simpa using hb
 
-theorem tinv_doMark {cfg : Cfg} {s : St} (hi : Inv cfg s) (h : TInv cfg s) : TInv cfg (doMark s) := by
-  unfold doMark
+theorem tinv_doMarkOld {cfg : Cfg} {s : St} (hi : Inv cfg s) (h : TInv cfg s) : TInv cfg (doMarkOld s) := by
+  unfold doMarkOld
   cases hp : s.ph with
   | built pe be cs msg =>
     simp only
@@ -241,6 +240,10 @@ theorem tinv_doMark {cfg : Cfg} {s : St} (hi : Inv cfg s) (h : TInv cfg s) : TIn
       · right; left; rw [blk_congr a1]; exact a2
   | _ => simpa [hp] using h
 
+theorem tinv_doMark {cfg : Cfg} {s : St} (hi : Inv cfg s) (h : TInv cfg s) : TInv cfg (doMark s) := by
+  obtain ⟨e1, e2, e3, _, _⟩ := doMark_eq s
+  exact (tinv_doMarkOld hi h).congr (by rw [e1]) (by rw [e1]) (by rw [e1]) (by rw [e1]) (effPeer_congr e2 e3)
+
 /-- all three invariants hold in every reachable state -/
 theorem reach_tinv {cfg : Cfg} {s : St} (h : Reach cfg s) : TInv cfg s := by
   induction h with
@@ -259,5 +262,10 @@ theorem reach_tinv {cfg : Cfg} {s : St} (h : Reach cfg s) : TInv cfg s := by
     | fill k => exact tinv_doFill ih k
     | mark => exact tinv_doMark hi ih
     | deliver => exact tinv_doDeliver ih
+    | wake =>
+      exact ih.congr rfl rfl rfl rfl (by
+        have : isIdle s.ph = true := hen.1
+        unfold effPeer; cases hp : s.ph <;> simp_all [isIdle, step])
+    | timer => exact ih.congr rfl rfl rfl rfl rfl
 
 end C35
